@@ -327,7 +327,8 @@ fn main_c07(seed: u64, thorough: bool, out: &str, shards: usize) {
         let car = &carriers[r.for_carrier];
         let prev = last_sig(&car.wire);
         let ad = if r.ext.alg == ED { &adv } else { &adv_p };
-        for (name, bytes) in response_mutations(r, &mut rng, ad, &prev) {
+        let prev_key = car.wire.blocks.last().unwrap_or(&car.wire.authority).next_key.clone();
+        for (name, bytes) in response_mutations(r, &mut rng, ad, &prev, &prev_key) {
             let stated = schema::ThirdPartyBlockContents::decode(&bytes[..])
                 .ok()
                 .and_then(|c| key_canon(c.external_signature.public_key.algorithm, &c.external_signature.public_key.key).map(|b| Pk { alg: c.external_signature.public_key.algorithm, bytes: b }));
